@@ -392,6 +392,92 @@ func ruleFlavourAgreement() check.Rule {
 	}
 }
 
+// FLUSH-BEFORE-TERMINAL: a sink over a buffered writer hands its buffer over before it reports the end.
+func ruleFlushBeforeTerminal() check.Rule {
+	return check.Rule{
+		Name:        "FLUSH-BEFORE-TERMINAL",
+		FamilyShape: true,
+		Doc:         "in a plugin operator that writes through a caller-supplied buffered writer (a parameter whose type has Write* and Flush methods, e.g. *csv.Writer), every terminal notification sent to the destination is preceded on every path by Flush on that writer: otherwise the operator reports rows as written that never reach the underlying io.Writer (only the completion path is exercised by the tests)",
+		Run: func(c *check.Ctx) {
+			m := c.M
+			n := 0
+			for _, sc := range m.SCs {
+				if !c.Armed(sc) {
+					continue
+				}
+				info := sc.Pkg.TypesInfo
+				// buffered writers used in the closure: variables declared outside it whose type has Flush()
+				writers := map[*types.Var]bool{}
+				ast.Inspect(sc.Lit.Body, func(x ast.Node) bool {
+					call, ok := x.(*ast.CallExpr)
+					if !ok {
+						return true
+					}
+					sel, ok := ast.Unparen(call.Fun).(*ast.SelectorExpr)
+					if !ok || !strings.HasPrefix(sel.Sel.Name, "Write") {
+						return true
+					}
+					id, ok := ast.Unparen(sel.X).(*ast.Ident)
+					if !ok {
+						return true
+					}
+					v, ok := objOf(info, id).(*types.Var)
+					if !ok || (sc.Lit.Pos() <= v.Pos() && v.Pos() <= sc.Lit.End()) {
+						return true
+					}
+					if obj, _, _ := types.LookupFieldOrMethod(v.Type(), true, sc.Pkg.Types, "Flush"); obj != nil {
+						if _, isFn := obj.(*types.Func); isFn {
+							writers[v] = true
+						}
+					}
+					return true
+				})
+				for w := range writers {
+					isFlush := func(nd ast.Node) bool {
+						found := false
+						ast.Inspect(nd, func(x ast.Node) bool {
+							if _, isLit := x.(*ast.FuncLit); isLit {
+								return false
+							}
+							if call, ok := x.(*ast.CallExpr); ok {
+								if sel, ok := ast.Unparen(call.Fun).(*ast.SelectorExpr); ok && sel.Sel.Name == "Flush" {
+									if id, ok := ast.Unparen(sel.X).(*ast.Ident); ok && objOf(info, id) == types.Object(w) {
+										found = true
+									}
+								}
+							}
+							return !found
+						})
+						return found
+					}
+					cnt := 0
+					for _, e := range sc.Emits {
+						if !e.ToDest || e.Kind == model.EmitNext || e.Forwarder {
+							if e.ToDest && e.Forwarder && e.Kind != model.EmitNext {
+								cnt++
+								n++
+								c.Violation(fmt.Sprintf("%s/%s/flush-%s#%d", sc, model.CtxKey(e.Ctx, e.Slot), w.Name(), cnt), e.Pos, "the %s of the source is forwarded directly although rows may still sit in the buffer of %s: they never reach the underlying writer", model.SlotNames[e.Kind], w.Name())
+							}
+							continue
+						}
+						cnt++
+						n++
+						key := fmt.Sprintf("%s/%s/flush-%s#%d", sc, model.CtxKey(e.Ctx, e.Slot), w.Name(), cnt)
+						body := funcBody(innermostFunc(m, e.Pkg, e.Node))
+						if body != nil && pathsPassBefore(body, e.Node, isFlush) {
+							c.OK(key, e.Pos, "%s.Flush() precedes the %s notification on every path", w.Name(), model.SlotNames[e.Kind])
+						} else {
+							c.Violation(key, e.Pos, "the %s notification is sent on a path that has not called %s.Flush(): rows counted as written are still in the buffer and never reach the underlying writer", model.SlotNames[e.Kind], w.Name())
+						}
+					}
+				}
+			}
+			c.Inc("buffered_sink_terminals", n)
+			c.Note("FLUSH-BEFORE-TERMINAL recognised=%d terminal notifications of buffered sinks", n)
+		},
+	}
+}
+
 func pluginControl(pkgName string, imports []string, body string) string {
 	var sb strings.Builder
 	sb.WriteString("package " + pkgName + "\n\nimport (\n")
@@ -448,7 +534,7 @@ func C18() *check.Property {
 		Patterns: cat(CorePatterns, PluginPkgs),
 		Scope:    scope,
 		Rules: []check.Rule{ruleStableMeansStable(), ruleNoInputMutation(), ruleNoPostDeliveryMutation(), ruleFlavourAgreement(),
-			ruleErrResultUsed(), ruleRelease(), ruleCtxProvenance(), ruleStateLevel(), ruleErrPropagation(), ruleUserFnContext()},
+			ruleErrResultUsed(), ruleRelease(), ruleCtxProvenance(), ruleStateLevel(), ruleErrPropagation(), ruleUserFnContext(), ruleFlushBeforeTerminal()},
 		Explanation: "Structural clauses only; equality of each emitted value with the wrapped function's result on all inputs is NOT decided. On the plugin packages the property names: an operator called Stable sorts with a stable algorithm (STABLE-MEANS-STABLE); " +
 			"no function that receives a slice writes through it or a derived sub-slice, including append onto it (NO-INPUT-MUTATION, taint over slicing, conversions and sub-slice-returning standard functions); an emitted slice is never the operator's reused buffer " +
 			"(NO-POST-DELIVERY-MUTATION, e.g. a read buffer allocated outside the loop); the byte flavour never classifies single bytes with unicode.Is* (FLAVOUR-AGREEMENT); and the core-contract rules are re-run with plugin scope: error results become Error notifications " +
